@@ -293,6 +293,21 @@ func runC24(c *c24Case, cov func(string)) (fail *stepFail, err error) {
 		if r.inflight != nil {
 			close(r.inflight.release)
 		}
+		if r.gp != nil && r.replica != nil {
+			// stop the stream and let the replica finish the entry it is appending: Close
+			// does not wait for the replication goroutine, which would then touch the
+			// unmapped file (SIGSEGV, the whole driver dies)
+			r.gp.setLimit(0)
+			last, same := int64(-1), 0
+			for i := 0; i < 400 && same < 3; i++ {
+				time.Sleep(2 * time.Millisecond)
+				if sz := pilosa.VerifTranslateSize(r.replica); sz == last {
+					same++
+				} else {
+					last, same = sz, 0
+				}
+			}
+		}
 		if r.replica != nil {
 			r.replica.Close()
 		}
@@ -690,6 +705,11 @@ func runC24Free(r *c24Run, bad func(int, string, string, string, ...interface{})
 		cw.Add(1)
 		go func(cl *call) {
 			defer cw.Done()
+			defer func() {
+				if v := recover(); v != nil {
+					cl.res = callResult{nil, fmt.Errorf("panic: %v", v)}
+				}
+			}()
 			ids, err := nsTranslate(r.primary, cl.ns, cl.keys)
 			cl.res = callResult{ids, err}
 		}(cl)
